@@ -26,9 +26,9 @@ ASSUMPTIONS = ["only the installed mmcif-pdbx 2.1.0 can be exercised; 'any suppo
                "writer emits both missing-value marker conventions ('.' and '?') for every optional item",
                "chain labels and TER placement may differ between the two readers; atoms are compared as multisets"]
 MIN = {"quick": {"pairs": 70, "atoms_compared": 6000, "pairs_with_altloc": 8, "pairs_with_icode": 6,
-                 "pairs_multimodel": 6, "pairs_label_ne_auth": 15},
+                 "pairs_multimodel": 6, "pairs_label_ne_auth": 15, "pairs_hetatm_flagged_residue": 6},
        "thorough": {"pairs": 1800, "atoms_compared": 150000, "pairs_with_altloc": 200, "pairs_with_icode": 150,
-                    "pairs_multimodel": 150, "pairs_label_ne_auth": 400}}
+                    "pairs_multimodel": 150, "pairs_label_ne_auth": 400, "pairs_hetatm_flagged_residue": 150}}
 
 
 def cases(tier, seed):
@@ -57,6 +57,20 @@ def run_case(spec):
             a["chain"] = "W"
     feats = []
     muts = []
+    if rng.random() < 0.2:
+        # a standard residue inside (or at the start of) a polymer chain carries the HETATM record type, the way
+        # modified residues and caps are deposited: the record type is a per-row label, the row order is the file's
+        aa = [k for k, t in enumerate(m["truth"]) if t["kind"] == "aa"]
+        if aa:
+            picks = set(rng.sample(aa, min(len(aa), rng.randint(1, 2))))
+            ids = {(m["truth"][k]["chain"] or "W", m["truth"][k]["resi"], m["truth"][k]["icode"]) for k in picks}
+            hit = 0
+            for a in pdbfmt.atoms_of(items):
+                if (a["chain"], a["resi"], a["icode"]) in ids and a["rec"] == "ATOM":
+                    a["rec"] = "HETATM"
+                    hit += 1
+            if hit:
+                feats.append("hetflag")
     c = rng.random()
     if c < 0.2:
         muts.append(rng.choice(["altloc_interleaved", "altloc_blocked"]))
@@ -146,7 +160,7 @@ def run_case(spec):
     fkey = "+".join(sorted(feats)) or "plain"
     res.count("pairs")
     for f, cname in (("altloc", "pairs_with_altloc"), ("icode", "pairs_with_icode"), ("multimodel", "pairs_multimodel"),
-                     ("label_ne_auth", "pairs_label_ne_auth")):
+                     ("label_ne_auth", "pairs_label_ne_auth"), ("hetflag", "pairs_hetatm_flagged_residue")):
         if f in feats:
             res.count(cname)
     res.cell(fkey, label, spec["ff"])
